@@ -29,6 +29,10 @@ CHECKS = {
             "exhaustive enumeration of picture sizes x segment grids on the real initialiser and protocol; explicit-state exploration of all worker interleavings; trace conformance of the model with real encodes",
             "All picture sizes up to 24x16 (thorough 65x34) superblocks x all segment grids run the real enc_dec_segments_init and a complete one-worker run of the real assign_enc_dec_segments; all interleavings of 2-3 workers are explored for pictures up to 3x3 (thorough 4x3); the traversal rule is validated against kernel traces of real encodes.",
             "traversal rule transcribed from mode_decision_kernel (bound by hook-H2 trace conformance); small scopes for (b)", "4/C24"),
+    "C03": ("encdrv under sched + refdec", "model_checking",
+            "exhaustive enumeration of call histories (send N, EOS, drain) for all N in a range x GOP-shape cross product, each executed on the real library under the controlled scheduler; quiescence decides end of output",
+            "Every history 'send N pictures, EOS, drain' for all N in 0..10 (thorough 0..20,33,34,65) crossed with hierarchical levels x intra period x refresh type x overlays, buffering-field deviations and pts alphabets is executed; packet count/order/pts/dts/p_app_private/EOS, recon count/positions and decoded count/order are checked on each.",
+            "canonical schedule only (schedule independence is C04); 64x64 pictures; libaom as decoder", "4/C03"),
 }
 
 NOT_YET = {}
